@@ -107,7 +107,8 @@ Inductive base_event :=
 | BLive                            (* observe the numbers of live instrumented values *)
 | BCallD (i : nat) (m a : N)       (* call of a D-trait method through its receiver kind, with re-entrant user code *)
 | BCloneFrom (i j : nat)           (* instance i .clone_from(instance j) *)
-| BLendCall (i : nat) (m a : N).   (* u.make_ref(Caller { u: u.clone(), m, a }): the lent value's Drop calls u.m(a), swallowing a panic *)
+| BLendCall (i : nat) (m a : N)
+| BCallM (i : nat) (m a : N).      (* a call, observed together with the matcher functions it consulted *)   (* u.make_ref(Caller { u: u.clone(), m, a }): the lent value's Drop calls u.m(a), swallowing a panic *)
 
 Record event := { ev_ctx : ctx; ev_base : base_event }.
 
@@ -315,6 +316,47 @@ Definition show_res (r : string + string) : string :=
   | inr p => "P:" ++ p
   end.
 
+(* ---------- which matcher functions a call consults (src/eval.rs: match_call_pattern, eval_dyn): in order, (the pattern's
+   debug id or 999, whether mismatch diagnostics were being collected).  Unordered: the patterns up to and including the first
+   one that does not answer "rejected" (filter_map(..).next() is lazy: no later matcher runs); when all reject, a strict mock runs
+   every matcher a second time with diagnostics for the error message, a partial mock does not.  Ordered: only the pattern that owns
+   the slot, once, with diagnostics ---------- *)
+Definition pat_id (p : pattern) : N := match p_dbg p with Some d => d | None => 999 end.
+
+Fixpoint scan_trace (a : N) (ps : list pattern) : list (N * bool) * bool :=
+  match ps with
+  | [] => ([], false)
+  | p :: ps' =>
+    match p_matcher p with
+    | None => ([], true)                       (* NoMatcherFunction: no matcher to run; the scan ends with that error *)
+    | Some f => if haccepts f a then ([(pat_id p, false)], true)
+                else let '(t, found) := scan_trace a ps' in ((pat_id p, false) :: t, found)
+    end
+  end.
+
+Definition matcher_trace (cfg : config) (s : state) (m a : N) : list (N * bool) :=
+  match lookup m (c_table cfg) with
+  | None => []
+  | Some mk =>
+    match m_mode mk with
+    | InAnyOrder =>
+      let '(t, found) := scan_trace a (m_pats mk) in
+      if found then t
+      else match c_fallback cfg with
+           | FbError => (t ++ map (fun '(d, _) => (d, true)) t)%list
+           | FbUnmock => t
+           end
+    | InOrder =>
+      match find_range (next_ord s) (m_pats mk) 0 with
+      | Some (_, p) => match p_matcher p with Some _ => [(pat_id p, true)] | None => [] end
+      | None => []
+      end
+    end
+  end.
+
+Definition show_trace (t : list (N * bool)) : string :=
+  " M[" ++ join "," (map (fun '(d, diag) => dec d ++ (if diag : bool then "d" else "")) t) ++ "]".
+
 Definition step_core (w : world) (e : event) : world * string :=
   let x := ev_ctx e in
   match ev_base e with
@@ -327,6 +369,17 @@ Definition step_core (w : world) (e : event) : world * string :=
       | None =>
         let '(s', act) := call hinfo N haccepts hdebug (w_cfg w) (w_state w) m a in
         (after_call w i it s' act, show_call w m a act)
+      end
+    end
+  | BCallM i m a =>
+    match live_inst w i with
+    | None => (w, "invalid")
+    | Some it =>
+      match matcher_panics (w_cfg w) (w_state w) m a with
+      | Some s' => (set_state w s', "P:user:matcher")
+      | None =>
+        let '(s', act) := call hinfo N haccepts hdebug (w_cfg w) (w_state w) m a in
+        (after_call w i it s' act, show_call w m a act ++ show_trace (matcher_trace (w_cfg w) (w_state w) m a))
       end
     end
   | BCallOwn i m a =>
@@ -581,6 +634,7 @@ Definition call_ (i m a : N) := BCall (N.to_nat i) m a.
 Definition clone_ (i : N) := BClone (N.to_nat i).
 Definition clonefrom_ (i j : N) := BCloneFrom (N.to_nat i) (N.to_nat j).
 Definition lendcall_ (i m a : N) := BLendCall (N.to_nat i) m a.
+Definition callm_ (i m a : N) := BCallM (N.to_nat i) m a.
 Definition drop_ (i : N) := BDrop (N.to_nat i).
 Definition verify_ (i : N) := BVerify (N.to_nat i).
 Definition nvid_ (i : N) := BNvid (N.to_nat i).
